@@ -238,6 +238,15 @@ func planE1(prop, tier string) *e1Plan {
 	case "C09":
 		p.oracle = oracleC09
 		p.add(scopeGen(), K)
+		lp := scopeListPkg()
+		p.pkgs = append(p.pkgs, lp)
+		for _, l := range scopeListArgs() {
+			if strings.Contains(strings.Join(l, " "), "LK") || strings.Contains(strings.Join(l, " "), "LE") {
+				for _, c := range K2 {
+					p.cases = append(p.cases, &Case{Dir: lp.Dir, Ifaces: l, Cfg: c, Scope: "S-list"})
+				}
+			}
+		}
 		p.rule = "S-gen (spellings × constraints × use sites, multi-parameter, embedding, instantiated aliases) × K; oracle: type parameter count/order, canonical constraint equality, acceptance equivalence and conformance over candidate type-argument lists^k, call-record field types, zero type errors"
 	case "C10":
 		p.oracle = oracleC10
